@@ -12,7 +12,7 @@ ENGINE = 'E1: one invalid or degenerate aspect x valid context, full product per
 RULE = ("families: unequal row counts x chunk x source; unsupported dtypes x source; 3-D / 0-d data; missing dataset / "
         "file; object, set, unit, IDENT-value, set-identifier and header-id strings of 256 and 300 characters; non-ASCII "
         "characters in every text position; integers outside the range of every explicitly coded attribute, origin "
-        "references, copy number 256; missing origin / channel / frame / logical file; wrong FILE-ID; out-of-domain "
+        "references, copy number 256; missing origin / channel / frame / logical file; wrong FILE-ID; equally named channels in one frame; over-long header fields assigned after construction; out-of-domain "
         "windows and chunk sizes; empty value lists; valid but unusual spellings (byte-ordered / class cast dtypes, "
         "big-endian / Fortran / read-only / strided arrays, tuples, numpy scalars, bool status ...) - each on top of two valid contexts (minimal and rich). Oracle: the "
         "classes the property lists as unrepresentable must raise; every other outcome is either an exception or a "
